@@ -63,12 +63,14 @@ func vStubSendMedia(c *cmafIngester, ctx context.Context, wg *sync.WaitGroup, se
 	meta, err := findSegMeta(c.asset, &look, segPart, nowMS)
 	if err == nil {
 		rep, _, _ := vStubFindRepAndSegmentIDByPrefix(c.asset, segPart) // (for audio the meta is that of the reference track)
-		// ... and whether it is available at the instant handed to the segment generator (1 ms slack: that instant is a
-		// float product truncated to milliseconds; the boundary millisecond itself is decided by C04)
+		// ... and it is only delivered if it is available at the instant handed to the segment generator (otherwise
+		// writeSegment answers 425 and nothing is sent). 1 ms slack: that instant is a float product truncated to
+		// milliseconds; the boundary millisecond itself is decided by C04.
 		ref := c.asset.refRep
 		n := int(meta.newNr) - c.cfg.getStartNr()
-		vAssert("C16.session.generated-when-available", (nowMS+1-1000*c.cfg.StartTimeS+vIngAtoMS)*ref.MediaTimescale >= 1000*vSegEndTicks(c.asset, ref, n))
-		vIngLog = append(vIngLog, vIngRec{rep: rep.ID, nr: int(meta.newNr), last: isLast})
+		if (nowMS+1-1000*c.cfg.StartTimeS+vIngAtoMS)*ref.MediaTimescale >= 1000*vSegEndTicks(c.asset, ref, n) {
+			vIngLog = append(vIngLog, vIngRec{rep: rep.ID, nr: int(meta.newNr), last: isLast})
+		}
 	}
 	if vIngCancelAfter >= 0 {
 		n := 0
